@@ -37,6 +37,7 @@ Key(i)      == B(Zeros(36) \o HexN(i, 4))                         \* the i-th gu
 Keys(n)     == [i \in 1..n |-> Key(i)]
 KeyA        == B("5aaeb6053f3e94c9b9a09f33669435e7ef1beaed")      \* keys with letters: their spelling can vary
 KeyB        == B("fb6916095ca1df60bb79ce92ce3ea74c37c5d359")
+KeyZ        == B(Zeros(40))
 Spellings(k) == {k, Sp(k, "upper"), Sp(k, "mixed"), Pre(k.hex), Sp(Pre(k.hex), "upper"), Sp(Pre(k.hex), "mixed"),
                  PreX(k.hex), Sp(PreX(k.hex), "upper"), Sp(PreX(k.hex), "mixed")}
 Xs(s)       == [n |-> Len(s), pat |-> "explicit", xs |-> s]
@@ -76,6 +77,8 @@ Guardians == {Keys(0), Keys(1), Keys(2), Keys(19), Keys(20), Keys(255), Keys(256
              \* and twice in two different spellings (a repeated guardian: must be rejected)
              \cup {<<x>> : x \in Spellings(KeyA)} \cup {<<KeyB, x>> : x \in Spellings(KeyA)}
              \cup {<<x, y>> : x \in {KeyA, Sp(KeyA, "mixed"), Pre(KeyA.hex)}, y \in Spellings(KeyA)}
+             \* the all-zero key (what unfilled slots of a key array hold) alone, repeated, and next to another key
+             \cup {<<KeyZ>>, <<KeyZ, KeyZ>>, <<KeyZ, Pre(KeyZ.hex)>>, <<Key(1), KeyZ>>, <<KeyZ, Key(1)>>, <<Key(1), KeyZ, KeyZ>>}
              \cup {<<x, KeyB, y>> : x \in {KeyA, Sp(Pre(KeyA.hex), "mixed")}, y \in {Sp(KeyA, "upper"), Pre(KeyA.hex), Sp(PreX(KeyA.hex), "mixed")}}
 SeqLists == {Xs(<<>>), Xs(<<"0000000000000000">>), Xs(<<"ffffffffffffffff">>), Xs(<<"0000000000000001", "8000000000000000">>),
              Xs(<<"0000000000000001", "0000000000000001">>), Gen(3, "idx"), Gen(2, "ff")}
